@@ -630,7 +630,7 @@ def run(rep, ctx):
                        "statements on the per-component pbc flag; transpose/inverse convention normal forms of to_scaled / "
                        "to_cartesian; effect analysis of swap_basis and get_minimized_cell")
     rep.assumptions = ["numpy/ASE API tables in vstatic.effects", "algebraic identities on values are not decided"]
-    rep.rule("R20.1", "every resolved intra-repo call conforms to its callee's signature (no TypeError on any path)")
+    rep.rule("R20.1", "every resolved call made from the geometry module conforms to its callee's signature (no TypeError on any path)")
     rep.rule("R20.2", "wrapping changes only periodic components, and only when asked")
     rep.rule("R20.3", "swap_basis exchanges cell vectors and pbc flags on copies and never moves atoms")
     rep.rule("R20.4", "get_minimized_cell returns new atoms, carries pbc/species, changes only the chosen basis row, honours min_size")
@@ -638,8 +638,8 @@ def run(rep, ctx):
     rep.rule("R20.6", "complete_cell is the scaled unit normal; the inertia tensor is decomposed about the periodic centre of mass")
     rep.rule("R20.7", "get_minimized_cell works on unwrapped coordinates throughout; the centre of mass uses the circular mean exactly on periodic components")
     with rep.guard("R20.1"):
-        n = sigs.run(rep, M, "R20.1")
-        rep.floor("R20.1", 150)
+        n = sigs.run(rep, M, "R20.1", scope={q for q in M.functions() if q.startswith(GEO + ".")})
+        rep.floor("R20.1", 30)
     with rep.guard("R20.2"):
         r20_2(rep, M, "R20.2")
     with rep.guard("R20.3"):
@@ -657,7 +657,7 @@ def run(rep, ctx):
     rep.rule("R20.8", "no function keeps results in module-level state or functools caches (answers do not depend on what the process analysed before)")
     with rep.guard("R20.8"):
         from .. import symrules as _SRms
-        _SRms.module_state(rep, ctx.model, "R20.8")
+        _SRms.module_state(rep, ctx.model, "R20.8", _SRms.GEOMETRY_SIDE)
     rep.floor("R20.7", 3)
     rep.floor("R20.2", 4)
     rep.floor("R20.3", 5)
